@@ -148,7 +148,8 @@ def encode(mod, t, v, ch=None, tag='own'):
             encs = srt
         n = len(encs)
         q = n.to_bytes(max(1, (n.bit_length() + 7) // 8), 'big')
-        return bytes([len(q)]) + q + b''.join(encs)
+        # the quantity is a length determinant + that many octets: BASIC-OER allows the long form of the determinant here too
+        return length(len(q), ch) + q + b''.join(encs)
     raise ValueError(k)
 
 
